@@ -801,7 +801,7 @@ func rulePXGroupRender(c *Ctx) []Obligation {
 		t.note("items are rendered exactly once", nItems == 1, "path %s renders the items %d times", traceOf(p), nItems)
 		// brace-less form?
 		isA, isN := false, false
-		if F.Has(`eq("block",recv.name)`, false) || F.Has("eq(nil,p2)", true) || noPrev {
+		if F.Has(`eq("block",recv.name)`, false) || knownOtherConst(F, "recv.name", "block") || F.Has("eq(nil,p2)", true) || noPrev {
 			isN = true
 		} else if prevT != "" && F.Has(`eq("block",recv.name)`, true) && F.Has("eq(nil,p2)", false) {
 			isGrp, grpNil := fact3(F, "is<*jen.Group>("+prevT+")"), fact3(F, "eq(assert<*jen.Group>("+prevT+"),nil)")
@@ -1881,6 +1881,13 @@ func rulePXTokenRender(c *Ctx, part string) []Obligation {
 			continue
 		}
 		if !successPath(p) {
+			// a literal token fails to render only if the writer fails: every value of a supported
+			// type has a literal, and a value the constructor accepted must not be refused at render time
+			if part == "T-LITFMT" && p.End == "return" && len(p.Ret) > 0 && (typ == tt("literalToken") || typ == tt("literalRuneToken") || typ == tt("literalByteToken")) {
+				if ret := p.Ret[len(p.Ret)-1]; definitelyError(ret) {
+					t.note("a literal renders without an error of its own", false, "path %s returns %s (facts %s)", traceOf(p), ret, F)
+				}
+			}
 			continue
 		}
 		out, other := pathOutput(p, "p1")
@@ -4273,6 +4280,21 @@ func implementsError(t types.Type) bool {
 			if sig, ok := m.Type().(*types.Signature); ok && sig.Params().Len() == 0 && sig.Results().Len() == 1 {
 				return true
 			}
+		}
+	}
+	return false
+}
+
+// knownOtherConst: the facts equate term with a string constant other than c (a switch on the term
+// took the case of another constant).
+func knownOtherConst(F Facts, term, c string) bool {
+	for atom, pol := range F {
+		if !pol || !strings.HasPrefix(atom, `eq("`) || !strings.HasSuffix(atom, ","+term+")") {
+			continue
+		}
+		k := atom[len("eq(") : len(atom)-len(","+term+")")]
+		if v, err := strconv.Unquote(k); err == nil && v != c {
+			return true
 		}
 	}
 	return false
